@@ -53,3 +53,19 @@ func init() {
 			Old: "\tname = allNames[len(ns.allUnquotedNames):]\n", New: "\tname = allNames[len(ns.allUnquotedNames):]\n\tns.allUnquotedNames = allNames\n", Rule: "TXN-1"},
 	)
 }
+
+func init() {
+	addMutants(
+		// ---- C05/C16: STALE-1
+		Mutant{ID: "stale1-consumeString-reuses-pos-after-fetch", Props: []string{"C05", "C16"}, File: "jsontext/decode.go", Func: "decoderState.consumeString",
+			Old: "\t\t\tabsPos := d.baseOffset + int64(pos)\n\t\t\terr = d.fetch() // will mutate d.buf and invalidate pos\n\t\t\tpos = int(absPos - d.baseOffset)\n",
+			New: "\t\t\terr = d.fetch()\n", Rule: "STALE-1"},
+		Mutant{ID: "stale1-revert-F1", Props: []string{"C05", "C16"}, File: "jsontext/decode.go", Func: "decoderState.consumeObject",
+			Old: "\t\t\tquotedName = d.buf[int(nameAbsPos-d.baseOffset):][:n]\n\t\t\treturn pos, wrapWithObjectName(err, quotedName)", New: "\t\t\treturn pos, wrapWithObjectName(err, quotedName)", Rule: "STALE-1"},
+		Mutant{ID: "stale1-readtoken-name-slice-kept-across-whitespace", Props: []string{"C05"}, File: "jsontext/decode.go", Func: "decoderState.PeekKind",
+			Old: "\tnext := Kind(d.buf[pos]).normalize()\n\tif d.Tokens.needDelim(next) != delim {", New: "\trest := d.buf[pos:]\n\td.consumeWhitespace(pos)\n\tnext := Kind(rest[0]).normalize()\n\tif d.Tokens.needDelim(next) != delim {", Rule: "STALE-1"},
+		Mutant{ID: "stale1-consumeValue-keeps-pos", Props: []string{"C05"}, File: "jsontext/decode.go", Func: "decoderState.consumeValue",
+			Old: "\t\t\tabsPos := d.baseOffset + int64(pos)\n\t\t\terr = d.fetch() // will mutate d.buf and invalidate pos\n\t\t\tpos = int(absPos - d.baseOffset)\n",
+			New: "\t\t\terr = d.fetch()\n", Rule: "STALE-1"},
+	)
+}
